@@ -1,6 +1,7 @@
 CONSTANTS
   Bs = {2, 3, 4, 5, 6}
   Dims = {1, 2, 5, 16, 33}
+  DimsX = {2, 16}
   MaxS = 4
   PCs = {1, 2}
 INIT Init
